@@ -21,7 +21,7 @@ enum { EV_SCHED_CALL = 1, EV_SCHED_RET, EV_CANCEL_CALL, EV_CANCEL_RET, EV_INVOKE
        EV_ACQUIRE };
 
 enum { F_CANCEL_FAR, F_CANCEL_RACING, F_CANCEL_FROM_TASK, F_RELEASE_RIGHT_AFTER_SCHEDULE, F_PENDING_AT_RELEASE, F_SELF_RESCHEDULE,
-       F_TASK_SCHEDULES_TASK, F_MULTI_CLIENT, F_FINAL_RELEASE_BY_CLIENT, F_RUN_THEN_CANCELED_AMBIGUOUS, F_CANCELED_IN_HANDOVER, F_TIMED_TASK_RAN, F_CANCEL_BEFORE_TIME };
+       F_TASK_SCHEDULES_TASK, F_MULTI_CLIENT, F_FINAL_RELEASE_BY_CLIENT, F_RUN_THEN_CANCELED_AMBIGUOUS, F_RELEASE_WHEN_IDLE, F_TIMED_TASK_RAN, F_CANCEL_BEFORE_TIME };
 
 #define MAX_TASKS 96
 #define MAX_CLIENTS 3
@@ -48,6 +48,7 @@ struct vtask {
     uint64_t sched_time[2];
     int incarnations; /* bumped by the scheduling thread before each schedule call */
     int resched_done;
+    int done; /* set (release) when the task function is about to return */
 };
 
 struct action {
@@ -64,6 +65,7 @@ static struct {
     int nactions[MAX_CLIENTS];
     int nclients;
     bool clients_hold_refs;
+    bool idle_style; /* nothing far in the future: the scheduler thread runs empty before the final release */
     uint64_t next_tix;
     pthread_t main_thread;
 } S;
@@ -153,6 +155,7 @@ static void task_fn(struct aws_task *task, void *arg, enum aws_task_status statu
         nanosleep(&ts, NULL);
     }
     mon_ev(EV_INVOKE_EXIT, (uint64_t)vt->id, 0, 0);
+    __atomic_store_n(&vt->done, 1, __ATOMIC_RELEASE);
 }
 
 static void do_release(void) {
@@ -210,6 +213,7 @@ static void generate(struct mon_rng *r) {
     memset(S.tasks, 0, sizeof(S.tasks));
     S.nclients = 1 + (int)mon_below(r, MAX_CLIENTS);
     S.clients_hold_refs = mon_chance(r, 3, 10);
+    S.idle_style = !S.clients_hold_refs && mon_chance(r, 2, 5);
     S.ntasks = 0;
     for (int c = 0; c < MAX_CLIENTS; ++c) {
         S.nactions[c] = 0;
@@ -232,6 +236,10 @@ static void generate(struct mon_rng *r) {
                 unsigned w = (unsigned)mon_below(r, 100);
                 vt->when = w < 40 ? W_NOW : w < 75 ? W_NEAR : w < 92 ? W_FAR : W_PAST;
                 vt->near_delta_ns = mon_below(r, 3000000);
+                if (S.idle_style) {
+                    vt->when = w < 55 ? W_NOW : w < 90 ? W_NEAR : W_PAST;
+                    vt->near_delta_ns = mon_below(r, 300000);
+                }
                 vt->script = S_NONE;
                 unsigned sc = (unsigned)mon_below(r, 100);
                 if (vt->when != W_FAR) {
@@ -243,6 +251,10 @@ static void generate(struct mon_rng *r) {
                         unsigned cw = (unsigned)mon_below(r, 100);
                         ch->when = cw < 50 ? W_NOW : cw < 85 ? W_NEAR : W_FAR;
                         ch->near_delta_ns = mon_below(r, 2000000);
+                        if (S.idle_style) {
+                            ch->when = cw < 60 ? W_NOW : W_NEAR;
+                            ch->near_delta_ns = mon_below(r, 300000);
+                        }
                         vt->script = S_SCHED_CHILD;
                         vt->script_target = ch->id;
                     } else if (sc < 30 && nmine > 0) {
@@ -579,8 +591,27 @@ static void run_case(void) {
             vt->when = mon_chance(r, 2, 3) ? W_NOW : W_NEAR;
             vt->near_delta_ns = mon_below(r, 500000);
             aws_task_init(&vt->task, task_fn, vt, "c08-last");
+            bool wait_idle = S.idle_style && mon_chance(r, 3, 4);
+            uint32_t gap = (uint32_t)mon_below(r, 6);
+            if (wait_idle) {
+                vt->when = W_NOW;
+            }
             do_schedule(vt);
-            mon_flag(F_RELEASE_RIGHT_AFTER_SCHEDULE);
+            if (wait_idle) {
+                /* release while the scheduler thread, having run its last task, is about to go to sleep on an empty
+                 * scheduler: the exit notification must not be lost between its last look and its wait */
+                uint64_t t0 = now_ns();
+                while (!__atomic_load_n(&vt->done, __ATOMIC_ACQUIRE) && now_ns() - t0 < 5000000000ULL) {
+                }
+                static const uint32_t GAP_NS[] = {0, 500, 2000, 8000, 30000, 120000};
+                uint64_t t1 = now_ns();
+                while (now_ns() - t1 < GAP_NS[gap]) {
+                }
+                mon_flag(F_RELEASE_WHEN_IDLE);
+                mon_count("releases_right_after_the_last_task_returned", 1);
+            } else {
+                mon_flag(F_RELEASE_RIGHT_AFTER_SCHEDULE);
+            }
         }
         do_release();
     }
@@ -632,7 +663,7 @@ int main(int argc, char **argv) {
     mon_watchdog_disarm();
     static const char *names[] = {"cancel_far_future_strict", "cancel_racing_by_client", "cancel_from_task_on_scheduler_thread", "release_right_after_schedule",
                                   "tasks_pending_at_release", "self_reschedule", "task_schedules_task", "multiple_clients", "final_release_by_client",
-                                  "run_then_canceled_ambiguous", "unused", "timed_task_ran", "cancel_returned_before_task_time_strict"};
+                                  "run_then_canceled_ambiguous", "release_right_after_last_task_returned_scheduler_empty", "timed_task_ran", "cancel_returned_before_task_time_strict"};
     for (int i = 0; i < (int)(sizeof(names) / sizeof(names[0])); ++i) {
         mon_flag_name(i, names[i]);
     }
